@@ -40,7 +40,7 @@ CHECKS.update({
         note='Array elements, unknown functions and components are uninterpreted functions of their evaluated arguments. One known finding (mul/div chain associativity), recognised counterfactually by re-parsing the text with explicit brackets.'),
     'C05': dict(
         technique='TLA+ model of the sanitiser contract (Sanitise.tla: lexical regions x trigger placements, what may change) model-checked by TLC + exhaustive placements replayed through the real frontend and validated by Trace_Sanitise',
-        text='Every trigger pattern is placed in every lexical region/position (≈260 sources x 2 entry points); string literal values, comments, identifiers and OPEN specifiers recorded from the IR and from fgen must equal what the spec predicts (only targeted constructs may change and must be restored).',
+        text='Every trigger pattern is placed in every lexical region/position (≈400 sources x 2 entry points, incl. whole-statement look-alikes `OPEN(… CONVERT=…)` inside strings, comments and continuation lines); string literal values, comments, identifiers and OPEN specifiers recorded from the IR and from fgen must equal what the spec predicts (only targeted constructs may change and must be restored).',
         note='Many known findings: the sanitiser rules are applied to raw lines without lexical context. gfortran accepts the generated sources (pre-flight).'),
     'C11': dict(
         technique='TLA+ laws (ExprEq.tla: Symmetric, HashConsistent, CaseInsensitive, with the 1:n shortcut exemption) evaluated by TLC on the full eq/hash relation recorded from real nodes; node universe enumerated by TLC',
@@ -97,7 +97,7 @@ CHECKS.update({
 })
 CHECKS.update({
     'C41': dict(
-        technique='TLA+ clauses WellFormedIR (ParentLink, ScopeOnChain, Resolvable) model-checked on small scope trees and evaluated by TLC on independently exported IR after each built-in transformation; frontend re-parse and gfortran -fsyntax-only recorded as facts',
+        technique='TLA+ clauses WellFormedIR (ParentLink, ScopeOnChain, Resolvable, UniqueNames) model-checked on small scope trees and evaluated by TLC on independently exported IR after each built-in transformation; frontend re-parse and gfortran -fsyntax-only recorded as facts',
         text='A registry of 49 built-in transformation entries (with option combinations) is applied without the Scheduler to generated kernels with internal procedures, marked inline calls, outline regions, loop pragmas, associates, dead branches; after each application the exported scope tree and every symbol occurrence are judged by Trace_WellFormedIR, which names the offending symbol. Offenders present before the transformation are exempt.',
         note='Transformations that raise for an input are counted, not judged. Pairs of transformations in thorough. Several known findings.'),
     'C43': dict(
@@ -109,7 +109,7 @@ CHECKS.update({
     'C02': dict(
         technique='TLA+ clauses RoundTrip (text fixpoint, IR identity) model-checked on abstract line/IR sequences and evaluated by TLC on recorded write/read/write cycles of generated programs and repository sources',
         text='t1 = fgen(parse(src)), t2 = fgen(parse(t1)) are compared line by line and the re-read IR (independent structural export of node kinds and expression trees) node by node by Trace_RoundTrip, which names the first difference; corpus: generated programs with all features and every repository Fortran source the FP frontend accepts without preprocessing.',
-        note='Sources needing cpp are skipped (counted). Two known findings (logical operand regrouping, dropped unit loop step) concern the IR clause only.'),
+        note='Sources needing cpp are skipped (counted). A deterministic universe of named constructs (named IF with 0..3 ELSE IF in four contexts, named DO / SELECT / ASSOCIATE / WHERE, nested) is always included, with the clauses read-back (frontend accepts the written text) and written-text-compiles (gfortran -fsyntax-only). Known findings (logical operand regrouping, dropped unit loop step, doubled quotes in string literals) concern the IR clause only.'),
     'C03': dict(
         technique='TLA+ state machine SourceStatus (per-node status and text under Replace/Remove/Substitute edits; ValidImpliesOriginalText, unmodified = original) model-checked; recorded conservative outputs validated by Trace_SourceStatus, behaviour of edited programs by Trace_FMachine',
         text='Unmodified units/files must be reproduced verbatim per unit; after local edits every node still marked valid must be emitted with its original text, and the conservative output of edited generated programs is compiled, run and validated against the reference machine on the edited program.',
@@ -185,7 +185,7 @@ CHECKS.update({
     'C32': dict(
         technique='TLA+ reference machine FMachine predicts the output; constant propagation (with/without unrolling), dead-code removal, removal of unused variables / dummy arguments (manually and through the Scheduler)',
         text='Programs with constants and input-dependent values, decidable and undecidable conditions, loops, arrays, unused locals and dummies; transformed code validated by Trace_FMachine.',
-        note='Known findings: constant propagation is unsound for several constructs; integer division as exact.'),
+        note='Known findings: constant propagation is unsound for loops, calls, SELECT, WHILE, EXIT/CYCLE, ASSOCIATE (those families only); the loop-free families cp/straight and cp-dce/straight (branch joins of IF / ELSE IF / ELSE) are covered by no known finding; integer division as exact.'),
 })
 CHECKS.update({
     'C28': dict(
